@@ -189,6 +189,22 @@ def judge(ctx, case, ctext, lam_params, b, inputs, nodes, rec, parsed, msg):
                 return
             # a sub-expression inside a comprehension that does not depend on the targets: value under outer bindings
             st_, v = OR.evaluate(key, b, list(b))
+            if kd in inside_comps and kd not in by_dump:
+                occ, seen_inside = OR.inside_values(ctext, kd, b, list(b))
+                if occ and all(occ):
+                    # every occurrence uses a loop variable in scope there (which may hide an outer variable of the same
+                    # name): what Python computed for it during the iteration are the only values it ever had
+                    ctx.count("judged(inside a comprehension, depends on its loop variables)")
+                    texts = [arepr(x) for x in seen_inside]
+                    if not texts:
+                        fail("soundness:value-of-unevaluated", "%r is shown as %s but Python never evaluated it (it depends on "
+                             "the loop variables of a comprehension whose body was not reached)" % (key, val), key)
+                        return
+                    if val not in texts and ADDR.sub("0x", val) not in [ADDR.sub("0x", t) for t in texts if ADDR.search(t)]:
+                        fail("soundness:wrong-value", "%r (inside a comprehension, depending on its loop variables) is shown as "
+                             "%s; during Python's evaluation it only had the values %s" % (key, val, " / ".join(sorted(set(texts))[:6])), key)
+                        return
+                    continue
             if st_ != "ok":
                 walrus_in_comp = any(
                     isinstance(sub, ast.NamedExpr) and sub.target.id == key
@@ -340,6 +356,15 @@ DIRECTED = [
     ("all(abs(n) < 4 for i, (n, z) in enumerate(zip(xs, ys)))", ["xs", "ys"], {"xs": [1, 9, 2], "ys": [4, 5, 6], "n": -7}),
     ("all(len(tl) < 2 for h, *tl in [xs + [0], ys + [1, 2]])", ["xs", "ys"], {"xs": [1], "ys": [4, 5]}),
     ("all(y + z < c for (y, z), c in zip(zip(xs, ys), xs))", ["xs", "ys"], {"xs": [1, 9, 2], "ys": [4, 5, 6]}),
+    # the iterable of a later `for` clause is computed from the loop variable of an earlier clause, which hides an
+    # argument of the same name: no value computed from the hidden argument may appear
+    ("all(c > 0 for xs in [[1, 0], ys] for c in xs[1:])", ["xs", "ys"], {"xs": [1, 5, 2], "ys": [4]}),
+    ("[c for xs in [[1, 0], ys] for c in xs[1:]] == []", ["xs", "ys"], {"xs": [1, 5, 2], "ys": [4]}),
+    ("sum(c for xs in [ys, [7]] for c in sorted(xs)) > 1000", ["xs", "ys"], {"xs": [1, 5, 2], "ys": [4]}),
+    ("{c for xs in [ys] for c in xs[:2]} == {0}", ["xs", "ys"], {"xs": [1, 5, 2], "ys": [4, 6, 8]}),
+    ("{str(c): c for s in ['pq', 'r'] for c in s.upper()} == {}", ["s"], {"s": "ab"}),
+    ("all(v < 3 for d in [{'a': 5}] for v in d.values())", ["d"], {"d": {"a": 1}}),
+    ("any(c > 1000 for x in xs for c in range(x))", ["x", "xs"], {"x": 2, "xs": [1, 3]}),
 ]
 
 
